@@ -94,7 +94,7 @@ def bv(hint="i"):
 # --------------------------------------------------------------------------------------------------------
 
 class SArr(SArrBase):
-    __slots__ = ("shape", "_elem", "kind", "origin", "mask_of", "dtype_name", "_sorted_meta", "meta")
+    __slots__ = ("shape", "_elem", "kind", "origin", "mask_of", "dtype_name", "_sorted_meta", "meta", "_view_of")
     __array_priority__ = 2000
 
     def __init__(self, shape, elem, kind="f", origin=None, dtype_name=None):
@@ -105,6 +105,7 @@ class SArr(SArrBase):
         self.mask_of = None  # (base, mask) when produced by boolean-mask indexing
         self.dtype_name = dtype_name or {"f": "float64", "i": "int64", "b": "bool"}[kind]
         self.meta = {}
+        self._view_of = None
 
     # -- constructors ----------------------------------------------------------------------------------
     @classmethod
@@ -429,7 +430,17 @@ class SArr(SArrBase):
             t = el()
             return SBool(t) if self.kind == "b" else SNum(t)
         r = SArr(tuple(out_shape), el, self.kind, dtype_name=self.dtype_name)
+        # numpy: basic indexing returns a *view* - a later store or in-place operation on it changes this array as well
+        # (write-through is modelled; a later store into this array is not seen by the view: views are read at slicing time)
+        r._view_of = (self, key)
         return r
+
+    def _write_through(self):
+        v = getattr(self, "_view_of", None)
+        if v is not None:
+            base, key = v
+            snap = SArr(self.shape, self._elem, self.kind, dtype_name=self.dtype_name)
+            base[key] = snap
 
     def _fancy(self, key):
         # supported shapes of advanced indexing (all that the repository uses):
@@ -551,6 +562,7 @@ class SArr(SArrBase):
                     raise Unsupported("masked assignment of an array")
                 vt = as_sort(to_term(value), self.kind)
                 self._elem = lambda t: z3.If(me(t), vt, old(t))
+                self._write_through()
                 return
             raise Unsupported("advanced-index assignment")
         conds, free_axes, axis = [], [], 0
@@ -613,6 +625,7 @@ class SArr(SArrBase):
                 raise Unsupported("bool into float array")
             return z3.If(z3.And(cs), newv, old(*idx)) if cs else newv
         self._elem = el
+        self._write_through()
 
     # -- arithmetic ------------------------------------------------------------------------------------
     def _ew(self, o, f, kind=None, swap=False):
@@ -721,6 +734,7 @@ class SArr(SArrBase):
             raise TypeError("Cannot cast ufunc output from float64 to int64")
         e = r._elem
         self._elem = (lambda *i: core.to_real(e(*i))) if (self.kind == "f" and r.kind == "i") else e
+        self._write_through()
         return self
 
     def __iadd__(self, o):
